@@ -3115,8 +3115,13 @@ class Partitions(Expr):
             else:
                 partitions = self.partitions
             # We assume that expressions defining a special "_partitions"
-            # parameter can internally capture the same logic as `Partitions`
-            return self.frame.substitute_parameters({"_partitions": partitions})
+            # parameter can internally capture the same logic as `Partitions`.
+            # Partition lengths memoised in the operands of the unfiltered
+            # expression (``FromPandas._pd_length_stats``) describe ALL of its
+            # partitions, so they must not be carried over to the selection.
+            return self.frame.substitute_parameters(
+                {"_partitions": partitions, "_pd_length_stats": None}
+            )
 
     def _node_label_args(self):
         return [self.frame, self.partitions]
